@@ -372,6 +372,9 @@ def clock_reads(repo):
                 elif n.attr in ENV_METHODS:
                     out.append(('%s:%s.reads.local-time-zone.%s' % (rel, qual, n.attr), False,
                                 '.%s() converts through the process time zone: the value depends on where the process runs (%s)' % (n.attr, qual)))
+            if isinstance(n, ast.Call) and isinstance(n.func, ast.Name) and n.func.id in CLOCK_ALLOWED and qual not in CLOCK_ALLOWED:
+                # the library's own volatile functions called from another function: that function now depends on the clock / generator too
+                out.append(('%s:%s.reads.%s()' % (rel, qual, n.func.id), False, '%s calls the volatile function %s()' % (qual, n.func.id)))
             if isinstance(n, ast.Call) and isinstance(n.func, ast.Name) and n.func.id == 'to_date':
                 # dateutil.parser.parse without default=: missing fields are filled from today's date
                 has_default = any(k.arg == 'default' for k in n.keywords)
